@@ -549,6 +549,9 @@ func (f *mfFile) apply(o mfOp) error {
 		return w.DropGodebug(a(0))
 	case "AddUse":
 		return w.AddUse(a(0), "")
+	case "AddNewUse":
+		w.AddNewUse(a(0), "")
+		return nil
 	case "DropUse":
 		return w.DropUse(a(0))
 	case "SetUse":
@@ -1031,6 +1034,9 @@ func randModOp(rng *rand.Rand, kind string) mfOp {
 		case 4:
 			return op("DropGodebug", pick("k1", "k2"))
 		case 5, 6:
+			if rng.Intn(5) == 0 {
+				return op("AddNewUse", pick("./x", "./new"))
+			}
 			return op("AddUse", pick("./x", "./y", "./new", "../z"))
 		case 7:
 			return op("DropUse", pick("./x", "./y", "./new"))
